@@ -3104,6 +3104,16 @@ class StateEngine(object):
             retry_timeout = branch_info.get("RetryTimeout")  # None if not present
 
             """
+            Any retry info still in the context is that of the last state of
+            the Branch or Iterator (e.g. a Task state that has used up its own
+            retries). It must not be mistaken for that of the parent Map or
+            Parallel state, whose own retry info (saved in branch_info when
+            its branches were launched) is restored below where needed.
+            """
+            context_state.pop("RetryCount", None)
+            context_state.pop("RetryTimeout", None)
+
+            """
             Retrieve the full parent Map/Parallel state dict from the ASL given
             the parent state name.
             """
